@@ -115,6 +115,41 @@ def phased_recorder(prop):
     return rec
 
 
+def phased_extreme(binary, prop, tier, seed):
+    """the extreme-argument phase alone; returns (event lines, crashed?)"""
+    import resource
+    d = vlib.scratch("verif-tr-")
+    out2 = os.path.join(d, "extreme.ndjson")
+
+    def limit():
+        resource.setrlimit(resource.RLIMIT_AS, (12 << 30, 12 << 30))
+    env = dict(os.environ, VERIF_DATA=os.path.join(vlib.SPEC, "data"))
+    r = subprocess.run(["timeout", "900", binary, "gen", "-prop", prop, "-tier", tier, "-seed", str(seed), "-arg", "extreme", "-out", out2],
+                       capture_output=True, text=True, env=env, preexec_fn=limit)
+    crashed = r.returncode != 0 and "github.com/islishude/bip39." in r.stderr and ("fatal error" in r.stderr or "panic:" in r.stderr or "out of memory" in r.stderr)
+    return (vlib.read_trace(out2) if os.path.exists(out2) else []), crashed, r
+
+
+def phased_replay(prop):
+    """a recorded process death is confirmed by running the extreme phase again; everything else is re-executed call by call"""
+    def rp(path, binary):
+        unit = json.load(open(path))["unit"]
+        if any(e.get("op") == "Crash" for e in unit):
+            reset = next((e for e in unit if e.get("op") == "Reset"), {})
+            _, crashed, r = phased_extreme(binary, prop, reset.get("tier", "quick"), reset.get("seed", 1))
+            return (not crashed, "extreme-argument phase re-run in a child process: %s" % ("died again: " + r.stderr[:200].replace("\n", " | ") if crashed else "completed"))
+        d = vlib.scratch("verif-rp-")
+        out = os.path.join(d, "replay.ndjson")
+        vlib.run_harness(binary, ["replay", "-arg", path, "-out", out])
+        lines = vlib.read_trace(out)
+        v = vlib.validate(lines, [prop], shards=1)
+        if v.infra:
+            raise Infra("replay trace unusable: %s" % v.infra[:3])
+        mine = [b for b in v.bad if b[1] == prop]
+        return (len(mine) == 0, "re-executed %d events, %d failing" % (len(lines), len(mine)))
+    return rp
+
+
 # --------------------------------------------------------------------------
 # what a property speaks about (for the measured coverage numbers)
 
@@ -243,11 +278,11 @@ RECIPES = {
                 speaks=lambda e: e.get("op") in ("ByEntropy", "Check", "ListSource"),
                 rule="all 10 x 2048 list indices: the word emitted through NewMnemonicByEntropy for every index (cover family), validation of sentences "
                      "containing every word and of the same sentences with one word replaced by a list neighbour, and the parsed source text of internal/wordlist/*.go"),
-    "C09": dict(mc=[MC_GATES, proof_gates], record=phased_recorder("C09"), props=["C09", "DRIFT"], exhaustive=True,
+    "C09": dict(mc=[MC_GATES, proof_gates], record=phased_recorder("C09"), replay=phased_replay("C09"), props=["C09", "DRIFT"], exhaustive=True,
                 speaks=lambda e: e.get("op") in ("ByEntropy", "NewMnemonic", "Read", "Crash"),
                 rule="every entropy length 0..4096 (+nil, +2^16/2^20/2^24 +-{0,1,4}) and every word count -4096..4096 (+extremes of int) under a counting source; "
                      "distinct by (operation, length or count, language)"),
-    "C14": dict(mc=[MC_NAMES, lambda t, s_: mc_history(t, s_)], record=phased_recorder("C14"), props=["C14"],
+    "C14": dict(mc=[MC_NAMES, lambda t, s_: mc_history(t, s_)], record=phased_recorder("C14"), replay=phased_replay("C14"), props=["C14"],
                 speaks=lambda e: "panicked" in e,
                 rule="product of argument classes (21 Language values x strings incl. every invalid-UTF-8 shape x entropy sizes x counts), fuzzed bytes, "
                      "multi-megabyte inputs, each call under recover and a 120 s watchdog; distinct by (operation, arguments)"),
@@ -429,10 +464,34 @@ def record_c06(binary, tier, seed):
     json.dump({"steps": steps}, open(prog, "w"))
     vlib.run_harness(binary, ["prog", "-arg", prog, "-seed", str(seed), "-out", out])
     lines = vlib.read_trace(out)
+    # overlapping calls on one injected source (a call held inside Read while another runs to completion)
+    out2 = os.path.join(d, "overlap.ndjson")
+    vlib.run_harness(binary, ["overlap", "-tier", tier, "-seed", str(seed), "-out", out2])
+    ov = vlib.read_trace(out2)
+    lines += ov
+    nrun += sum(1 for x in ov if '"op":"NewMnemonic"' in x)
     return lines, nrun, {"graph_edges_replayed": nedges, "reader_runs": nrun, "exhaustive_edge_cover": True}
 
 
-RECIPES["C06"] = dict(mc=[mc_reader], record=record_c06, props=["C06", "DRIFT"], exhaustive=True,
+def replay_c06(path, binary):
+    """units of the overlap scenarios are confirmed by running the scenarios again; everything else call by call"""
+    unit = json.load(open(path))["unit"]
+    cut = next((e for e in unit if e.get("op") == "Cut" and "overlap_seed" in e), None)
+    d = vlib.scratch("verif-rp-")
+    out = os.path.join(d, "replay.ndjson")
+    if cut is not None:
+        vlib.run_harness(binary, ["overlap", "-tier", cut["overlap_tier"], "-seed", str(cut["overlap_seed"]), "-out", out])
+    else:
+        vlib.run_harness(binary, ["replay", "-arg", path, "-out", out])
+    lines = vlib.read_trace(out)
+    v = vlib.validate(lines, ["C06"], shards=1 if cut is None else 4)
+    if v.infra:
+        raise Infra("replay trace unusable: %s" % v.infra[:3])
+    mine = [b for b in v.bad if b[1] == "C06"]
+    return (len(mine) == 0, "%s: %d events, %d failing" % ("overlap scenarios run again" if cut is not None else "re-executed", len(lines), len(mine)))
+
+
+RECIPES["C06"] = dict(mc=[mc_reader], record=record_c06, replay=replay_c06, props=["C06", "DRIFT"], exhaustive=True,
                       speaks=lambda e: e.get("op") in ("NewMnemonic", "Read"),
                       rule="one scripted reader per edge of MC_Reader's state graph (every delivered count k -> k', every failure kind EOF/unexpected EOF/other with or "
                            "without bytes alongside, (0,nil) reads) for each of the five word counts, plus all two-piece splits and 1-byte reads; distinct by (count, language, reads)")
@@ -686,7 +745,15 @@ def record_c13(binary, tier, seed):
     d = vlib.scratch("verif-hist-")
     lines = []
     for i, (sm, labs) in enumerate(programs):
-        steps = [{"op": "observe"}] + [step_from_label(l, sm, rng) for l in labs] + [{"op": "recheck"}]
+        body = [step_from_label(l, sm, rng) for l in labs]
+        # opening: validation under the unsupported values while the process is cold; closing pass: English is used
+        # explicitly, then the first calls of the program are made again with the same arguments - whatever they
+        # return now must be what they returned first (history independence, checked through the memo)
+        opening = [{"op": "chk", "cls": "valid", "lang": sm["U"], "var": 0}, {"op": "chk", "cls": "valid", "lang": sm["V"], "var": 0},
+                   {"op": "ent", "cls": "e16", "lang": sm["U"], "var": 0}]
+        english = [{"op": "chk", "cls": "valid", "lang": 2, "var": 0}, {"op": "chk", "cls": "unknown", "lang": 2, "var": 0}]
+        again = [dict(st) for st in (opening + body)[:25] if st["op"] in ("chk", "ent", "seed", "str")]
+        steps = [{"op": "observe"}] + opening + body + english + again + [{"op": "recheck"}]
         prog, out = os.path.join(d, "prog.json"), os.path.join(d, "trace.ndjson")
         json.dump({"steps": steps}, open(prog, "w"))
         vlib.run_harness(binary, ["prog", "-arg", prog, "-seed", str(seed), "-out", out])
@@ -775,7 +842,7 @@ def conc_step(code, slotmap, rng):
     if op == "ent":
         return {"op": "ent", "cls": rng.choice(["e16", "e32", "e16z", "bad17"]), "lang": lang, "var": rng.randrange(2)}
     if op == "seed":
-        return {"op": "seed", "cls": rng.choice(["ascii", "jp", "compat"]), "var": rng.randrange(2)}
+        return {"op": "seed", "cls": rng.choice(["ascii", "jp", "compat", "lit1", "lit2", "lit1", "lit2"]), "var": rng.randrange(2)}
     if op == "str":
         return {"op": "str", "n": lang}
     return {"op": "new", "n": rng.choice([12, 24, 13]), "lang": lang}
@@ -841,6 +908,17 @@ def record_c12(binary, tier, seed):
             nraces += n
     for dd in dirs:
         vlib.shutil.rmtree(dd, ignore_errors=True)
+    # overlapping NewMnemonic calls on one injected source, under the race detector
+    od = vlib.scratch("verif-conc-")
+    out2, rl = os.path.join(od, "overlap.ndjson"), os.path.join(od, "race")
+    env = dict(os.environ, VERIF_DATA=os.path.join(vlib.SPEC, "data"), GORACE="log_path=%s atexit_sleep_ms=0 halt_on_error=0" % rl)
+    r = subprocess.run(["timeout", "600", binary, "overlap", "-tier", tier, "-seed", str(seed), "-out", out2], capture_output=True, text=True, env=env)
+    if r.returncode not in (0, 66):
+        raise Infra("overlap harness failed rc=%d: %s" % (r.returncode, r.stderr[-1500:]))
+    text = "".join(open(os.path.join(od, f), errors="replace").read() for f in sorted(os.listdir(od)) if f.startswith("race"))
+    lines += vlib.read_trace(out2)
+    lines.append(json.dumps({"op": "RaceReport", "n": text.count("WARNING: DATA RACE"), "text": [ord(c) for c in text[:1500]]}) + "\n")
+    nraces += text.count("WARNING: DATA RACE")
     return lines, len(plan), {"fresh_race_build_processes": len(plan), "race_reports": nraces,
                               "programs_available": {"firstuse": len(fu), "allops": len(ao)}}
 
@@ -1015,6 +1093,12 @@ def record_c17(binary, tier, seed):
         for k in range(nstruct):
             inputs = {f: concretise_lines(structs[(k * 10 + i) % len(structs)], rng, pools).encode() for i, f in enumerate(FILES)}
             lines += run_tool(tool, binary, port, inputs, False, "structure", d)
+            runs += 1
+        # very long words (a line-oriented reader with a token limit would drop them and everything after)
+        for n in ((65535, 65536, 70000) if tier == "quick" else (4095, 4096, 65535, 65536, 65537, 70000, 200000, 1 << 20)):
+            w = "".join(rng.choice(pools["latin"]) for _ in range(64)) * (n // 64 + 1)
+            inputs = {f: ("alpha\n" + w[:n] + "\nomega\n" + (rng.choice(pools["hangul"]) * (n // 3))[:n // 3] + "\nlast").encode() for f in FILES}
+            lines += run_tool(tool, binary, port, inputs, False, "longword", d)
             runs += 1
         nbig = 7 if tier == "quick" else 100
         for k in range(nbig):
